@@ -239,7 +239,7 @@ Proof.
   - cbn [fst]. eapply ci_same; [| | |exact H]; reflexivity.
   - destruct (is_idle c s); [|exact H]. destruct (id_lookup (s_ids s) i) as [ser|]; [|exact H].
     destruct (getjob (s_jobs s) ser) as [j|]; [|exact H].
-    destruct (j_done j && negb (done_pending ser (s_hub s))); [destruct (j_drop j && id_is (s_ids s) (j_id j) ser)|]; cbn [fst]; try exact H;
+    destruct (j_done j); [destruct (j_drop j && id_is (s_ids s) (j_id j) ser)|]; cbn [fst]; try exact H;
       (eapply ci_same; [| | |exact H]; reflexivity).
   - exact H.
   - destruct (id_lookup (s_ids s) i) as [ser|]; [|exact H]. cbn [fst]. apply ci_setjob_same; [|exact H]. intro j. cbn. auto.
